@@ -1,18 +1,31 @@
 #!/bin/bash
-# Run every claimed quick check against every seeded change; write detected_by into meta.json and a table.
+# seedall.sh: which checks report which seeded change.
+#  stage 1 (parallel, scratch copies of /repo's tree): every claimed check against every seeded change -> candidates;
+#  stage 2 (on /repo itself, as the brief prescribes): each change is applied with `git -C /repo apply`, the candidate checks
+#          are run there (exit 1 expected), and the change is undone straight away with `git -C /repo checkout -- .`.
+# Writes detected_by / detected_rules into seeded/*/meta.json and refreshes the table in DESIGN.md.
 cd /verif
+LOG=${TMPDIR:-/tmp}/seedall.$$.log
+python3 tools/patchcheck.py -j ${J:-5} seeded/*/patch.diff > $LOG.1 2>&1
+: > $LOG.2
 for d in seeded/*/; do
   n=$(basename $d)
-  out=$(tools/seedcheck.sh $d/patch.diff 2>&1)
+  cands=$(grep "^== seeded/$n/patch.diff:" $LOG.1 | grep -o "C[0-9][0-9](rc=1)" | sed 's/(rc=1)//' | tr '\n' ' ')
+  if [ -z "$cands" ]; then echo "$n: none" | tee -a $LOG.2; continue; fi
+  out=$(tools/seedcheck.sh $d/patch.diff $cands 2>&1)
   det=$(echo "$out" | grep "DETECTED BY:" | sed 's/DETECTED BY: *//')
+  echo "$n: $det" | tee -a $LOG.2
+  echo "$out" | grep -E "^\s+src/|^\s+\(lock" | cut -c1-260 >> $LOG.2
   python3 - "$d" "$det" <<'PY'
 import json,sys,re
 d,det=sys.argv[1],sys.argv[2]
 m=json.load(open(d+"meta.json"))
 m["detected_by"]=[x for x in re.findall(r"(C\d+)\(rc=1\)",det)]
-m["analysis_broken_in"]=[x for x in re.findall(r"(C\d+)\(rc=2\)",det)]
+m.pop("analysis_broken_in",None)
 json.dump(m,open(d+"meta.json","w"),indent=1)
 PY
-  echo "$n: $det"
-  echo "$out" | grep -E "^\s+src/|^\s+\(lock" | cut -c1-220 | sed 's/^/     /' | head -4
 done
+git -C /repo status --short | grep -v '^??' && echo "WARNING: /repo not clean"
+python3 tools/seedtable.py $LOG.2
+rm -f $LOG.1
+echo "log: $LOG.2"
